@@ -158,62 +158,6 @@ Definition complete (n : nat) (c : comp) (s : st) : res st :=
   | r => r
   end.
 
-(* _dispatcher for one event of the batch, dispatched by root r *)
-Definition dispatch (n : nat) (r : comp) (e : ev) (s : st) : res st :=
-  let '(s1, ms) := lookup n r e s in
-  let s2 := set_disp s1 (mkd r e ms (forallb (fun x => rt s1 x =? r) ms) :: disp s1) in
-  match e with
-  | PrepUnreg c => Ok (enq (rt s2 r) (PrepDone c) s2)            (* _eventDone: complete event *)
-  | PrepDone c => if existsb (Nat.eqb c) ms then complete n c s2 else Ok s2
-  | _ => Ok s2
-  end.
-
-Fixpoint dispatch_all (n : nat) (r : comp) (sched : list ev) (s : st) : res st :=
-  match sched with
-  | [] => Ok s
-  | e :: t => match dispatch n r e s with
-              | Ok s' => dispatch_all n r t s'
-              | x => x
-              end
-  end.
-
-Fixpoint remove1 (e : ev) (l : list ev) : option (list ev) :=
-  match l with
-  | [] => None
-  | x :: t => if ev_eqb e x then Some t
-              else match remove1 e t with Some t' => Some (x :: t') | None => None end
-  end.
-
-Fixpoint is_perm (sched batch : list ev) : bool :=
-  match sched with
-  | [] => match batch with [] => true | _ => false end
-  | e :: t => match remove1 e batch with Some b => is_perm t b | None => false end
-  end.
-
-(* root._flush(): the batch is what is queued now; events fired meanwhile wait for the next flush *)
-Definition flush (n : nat) (r : comp) (sched : list ev) (s : st) : res st :=
-  if is_perm sched (q s r) then dispatch_all n r sched (set_q s (upd (q s) r [])) else BadSched.
-
-(* tick(): no tasks, not running: if len(self._queue): self.flush()  (= self.root._flush()) *)
-Definition tick1 (n : nat) (r : comp) (sched : list ev) (s : st) : res st :=
-  match q s r with
-  | [] => match sched with [] => Ok s | _ => BadSched end
-  | _ => flush n (rt s r) sched s
-  end.
-
-Fixpoint ticks (n : nat) (r : comp) (scheds : list (list ev)) (s : st) : res st :=
-  match scheds with
-  | [] => Ok s
-  | sc :: t => match tick1 n r sc s with Ok s' => ticks n r t s' | x => x end
-  end.
-
-Inductive op :=
-| OReg (c p : comp)
-| OUnreg (c : comp)
-| OFire (x : comp) (i : nat)
-| OTick (r : comp) (scheds : list (list ev))
-| OFlush (x : comp) (sched : list ev).
-
 (* register(c, p); precondition of the property: c detached and not pending, p outside c's subtree
    (for a detached c that subtree is the tree whose root is c) *)
 Definition register (n : nat) (c p : comp) (s : st) : res st :=
@@ -239,11 +183,134 @@ Definition unregister (n : nat) (c : comp) (s : st) : res st :=
                  (set_dirty (set_pend s (upd (pend s) c true)) (upd (dirty s) (rt s c) true)))
   else PreViolated.
 
+Definition fire (n : nat) (x : comp) (i : nat) (s : st) : res st :=
+  if x <? n then Ok (enq (rt s x) (Probe i) s) else PreViolated.
+
+(* what a handler may do while it handles an event: the same three operations, under the same
+   preconditions, evaluated at the moment the handler runs.  The root whose flush is in progress cannot be
+   registered elsewhere (registerChild asserts that the queue it drains is not being flushed). *)
+Inductive act :=
+| AReg (c p : comp)
+| AUnreg (c : comp)
+| AFire (x : comp) (i : nat).
+
+Definition run_act (n : nat) (r : comp) (a : act) (s : st) : res st :=
+  match a with
+  | AReg c p => if c =? r then PreViolated else register n c p s
+  | AUnreg c => unregister n c s
+  | AFire x i => fire n x i s
+  end.
+
+Fixpoint run_acts (n : nat) (r : comp) (l : list act) (s : st) : res st :=
+  match l with
+  | [] => Ok s
+  | a :: t => match run_act n r a s with Ok s' => run_acts n r t s' | x => x end
+  end.
+
+(* one entry of a schedule: the event, and for the receivers whose handler did something the operations it
+   performed (in the order of the receivers: handlers run by descending priority = ascending index) *)
+Definition item := (ev * list (comp * list act))%type.
+
+Fixpoint acts_of (x : comp) (hs : list (comp * list act)) : list act :=
+  match hs with
+  | [] => []
+  | (y, l) :: t => if x =? y then l else acts_of x t
+  end.
+
+(* the handlers of the receivers ms run one after the other; ok: every receiver had r as its root when
+   its handler ran *)
+Fixpoint run_handlers (n : nat) (r : comp) (ms : list comp) (hs : list (comp * list act)) (ok : bool) (s : st)
+  : res (st * bool) :=
+  match ms with
+  | [] => Ok (s, ok)
+  | x :: t => match run_acts n r (acts_of x hs) s with
+              | Ok s' => run_handlers n r t hs (ok && (rt s x =? r)) s'
+              | PreViolated => PreViolated
+              | BadSched => BadSched
+              | OutOfFuel => OutOfFuel
+              | Crash => Crash
+              end
+  end.
+
+(* only events of the kinds probe / registered / unregistered have handlers that act, and only receivers act *)
+Definition hs_ok (e : ev) (ms : list comp) (hs : list (comp * list act)) : bool :=
+  forallb (fun h => existsb (Nat.eqb (fst h)) ms) hs &&
+  match e with
+  | Probe _ | Registered _ _ | Unregistered _ _ => true
+  | _ => match hs with [] => true | _ => false end
+  end.
+
+(* _dispatcher for one event of the batch, dispatched by root r *)
+Definition dispatch (n : nat) (r : comp) (it : item) (s : st) : res st :=
+  let '(e, hs) := it in
+  let '(s1, ms) := lookup n r e s in
+  if hs_ok e ms hs then
+    match run_handlers n r ms hs true s1 with
+    | Ok (s1', ok) =>
+        let s2 := set_disp s1' (mkd r e ms ok :: disp s1') in
+        match e with
+        | PrepUnreg c => Ok (enq (rt s2 r) (PrepDone c) s2)            (* _eventDone: complete event *)
+        | PrepDone c => if existsb (Nat.eqb c) ms then complete n c s2 else Ok s2
+        | _ => Ok s2
+        end
+    | PreViolated => PreViolated
+    | BadSched => BadSched
+    | OutOfFuel => OutOfFuel
+    | Crash => Crash
+    end
+  else BadSched.
+
+Fixpoint dispatch_all (n : nat) (r : comp) (sched : list item) (s : st) : res st :=
+  match sched with
+  | [] => Ok s
+  | e :: t => match dispatch n r e s with
+              | Ok s' => dispatch_all n r t s'
+              | x => x
+              end
+  end.
+
+Fixpoint remove1 (e : ev) (l : list ev) : option (list ev) :=
+  match l with
+  | [] => None
+  | x :: t => if ev_eqb e x then Some t
+              else match remove1 e t with Some t' => Some (x :: t') | None => None end
+  end.
+
+Fixpoint is_perm (sched batch : list ev) : bool :=
+  match sched with
+  | [] => match batch with [] => true | _ => false end
+  | e :: t => match remove1 e batch with Some b => is_perm t b | None => false end
+  end.
+
+(* root._flush(): the batch is what is queued now; events fired meanwhile wait for the next flush *)
+Definition flush (n : nat) (r : comp) (sched : list item) (s : st) : res st :=
+  if is_perm (map fst sched) (q s r) then dispatch_all n r sched (set_q s (upd (q s) r [])) else BadSched.
+
+(* tick(): no tasks, not running: if len(self._queue): self.flush()  (= self.root._flush()) *)
+Definition tick1 (n : nat) (r : comp) (sched : list item) (s : st) : res st :=
+  match q s r with
+  | [] => match sched with [] => Ok s | _ => BadSched end
+  | _ => flush n (rt s r) sched s
+  end.
+
+Fixpoint ticks (n : nat) (r : comp) (scheds : list (list item)) (s : st) : res st :=
+  match scheds with
+  | [] => Ok s
+  | sc :: t => match tick1 n r sc s with Ok s' => ticks n r t s' | x => x end
+  end.
+
+Inductive op :=
+| OReg (c p : comp)
+| OUnreg (c : comp)
+| OFire (x : comp) (i : nat)
+| OTick (r : comp) (scheds : list (list item))
+| OFlush (x : comp) (sched : list item).
+
 Definition step (n : nat) (o : op) (s : st) : res st :=
   match o with
   | OReg c p => register n c p s
   | OUnreg c => unregister n c s
-  | OFire x i => if x <? n then Ok (enq (rt s x) (Probe i) s) else PreViolated
+  | OFire x i => fire n x i s
   | OTick r scheds => if (r <? n) && (par s r =? r) then ticks n r scheds s else PreViolated
   | OFlush x sched => if x <? n then flush n (rt s x) sched s else PreViolated
   end.
